@@ -73,6 +73,26 @@ pub fn gen_text(rng: &mut Rng, max_len: usize, ascii: bool) -> String {
     _ => rng.usize_below(max_len + 1),
   };
   let mut s = String::new();
+  // swarm mode "long token" (4 in 1000 leaf-sized texts): the text starts with
+  // one unbroken token whose length sits on a VLQ digit boundary (a delta of
+  // 16 / 512 / 16384 needs one more base64 digit than the value below it), so
+  // that the next chunk starts exactly there
+  if max_len >= 24 && !cfg!(miri) && rng.chance(4) {
+    let b = *rng.pick(&[512usize, 512, 512, 512, 512, 16384]);
+    let n = match rng.below(4) {
+      0 => b - 1,
+      1 => b + 1,
+      _ => b,
+    };
+    s.extend(std::iter::repeat('x').take(n));
+    s.push_str(*rng.pick(&[";", " ", "\n", "=", ""]));
+    let rest = rng.usize_below(max_len + 1);
+    let stop = s.len() + rest;
+    while s.len() < stop {
+      s.push_str(*rng.pick(ASCII_ALPHA));
+    }
+    return s;
+  }
   while s.len() < target {
     let piece = if !ascii && rng.chance(250) {
       *rng.pick(UTF8_EXTRA)
@@ -104,21 +124,56 @@ pub fn gen_bytes(rng: &mut Rng, max_len: usize) -> Vec<u8> {
   b
 }
 
+/// A count next to a power of two (2^k - 1 ..= 2^k + 4) for `5 <= k <= max_k`,
+/// smaller powers far more likely: the sizes at which small inline tables,
+/// narrow index types and chunked loops change behaviour.
+pub fn magic_count(rng: &mut Rng, max_k: u32) -> usize {
+  let mut k = 5;
+  while k < max_k && rng.chance(450) {
+    k += 1;
+  }
+  // 8-bit and 16-bit limits get extra weight
+  if max_k >= 8 && rng.chance(250) {
+    k = 8;
+  }
+  if max_k >= 16 && rng.chance(60) {
+    k = 16;
+  }
+  (1usize << k) - 1 + rng.usize_below(6)
+}
+
 /// A tame, in-range source map for `text`.
 pub fn gen_map_for(rng: &mut Rng, text: &str, own_name: Option<&str>) -> MapSpec {
-  let nsrc = 1 + rng.usize_below(3);
-  let mut sources: Vec<String> = (0..nsrc).map(|_| rng.pick(FILE_NAMES).to_string()).collect();
+  // swarm mode "many entries" (3 in 1000 maps): more sources / names than fit
+  // an 8-bit index or a small inline table
+  let many_sources = !cfg!(miri) && rng.chance(3);
+  let many_names = !cfg!(miri) && rng.chance(3);
+  let nsrc = if many_sources { magic_count(rng, 9) } else { 1 + rng.usize_below(3) };
+  let mut sources: Vec<String> = if many_sources {
+    (0..nsrc).map(|i| format!("s{}.js", i)).collect()
+  } else {
+    (0..nsrc).map(|_| rng.pick(FILE_NAMES).to_string()).collect()
+  };
   if let Some(n) = own_name {
     if rng.chance(500) {
       sources[0] = n.to_string();
     }
   }
-  let nnames = rng.usize_below(4);
+  let nnames = if many_names { magic_count(rng, 9) } else { rng.usize_below(4) };
   let names: Vec<String> = (0..nnames)
-    .map(|_| if rng.chance(60) { String::new() } else { rng.pick(IDENTS).to_string() })
+    .map(|i| {
+      if many_names {
+        format!("n{}", i)
+      } else if rng.chance(60) {
+        String::new()
+      } else {
+        rng.pick(IDENTS).to_string()
+      }
+    })
     .collect();
   let sources_content: Vec<String> = match rng.below(4) {
     0 => vec![],
+    _ if many_sources => (0..nsrc).map(|i| if i % 7 == 3 { String::new() } else { format!("c{}", i) }).collect(),
     1 => (0..nsrc).map(|i| if i == 0 { String::new() } else { gen_text(rng, 16, true) }).collect(),
     _ => (0..nsrc).map(|_| gen_text(rng, 20, true)).collect(),
   };
@@ -134,6 +189,16 @@ pub fn gen_map_for(rng: &mut Rng, text: &str, own_name: Option<&str>) -> MapSpec
     if rng.chance(600) && k > 0 {
       cols[0] = 0;
     }
+    // two segments exactly a VLQ digit boundary apart, when the line is long enough
+    for b in [16u32, 512, 16384] {
+      if *len > b + 1 && rng.chance(if b == 16 { 100 } else { 500 }) {
+        let c = rng.below((*len - b) as u64) as u32;
+        cols.push(if rng.chance(500) { 0 } else { c });
+        let first = *cols.last().unwrap();
+        cols.push(first + b - 1 + rng.below(3) as u32);
+      }
+    }
+    cols.retain(|c| *c < *len);
     cols.sort_unstable();
     cols.dedup();
     for col in cols {
@@ -156,6 +221,24 @@ pub fn gen_map_for(rng: &mut Rng, text: &str, own_name: Option<&str>) -> MapSpec
           if wild { big(rng) } else { rng.below(12) as u32 },
           name,
         ))
+      };
+      // 15 in 1000 segments: the original line or column lies exactly a VLQ
+      // digit boundary (16 / 512 / 16384, give or take one) away from the
+      // previous mapped segment's, in either direction
+      let orig = match (orig, segs.iter().rev().find_map(|s: &Seg| s.orig)) {
+        (Some((s0, l0, c0, n0)), prev) if rng.chance(15) => {
+          let d = *rng.pick(&[16i64, 16, 512, 512, 512, 16384]) - 1 + rng.below(3) as i64;
+          let d = if rng.chance(350) { -d } else { d };
+          let (pl, pc) = prev.map_or((1i64, 0i64), |(_, l, c, _)| (l as i64, c as i64));
+          if rng.chance(700) {
+            let c = pc + d;
+            Some((s0, l0, if c >= 0 { c as u32 } else { (pc - d) as u32 }, n0))
+          } else {
+            let l = pl + d;
+            Some((s0, if l >= 1 { l as u32 } else { (pl - d) as u32 }, c0, n0))
+          }
+        }
+        (o, _) => o,
       };
       // sometimes repeat the previous segment's original position with the
       // name toggled (named -> unnamed and back): the encoder's "same
